@@ -21,10 +21,15 @@ Oracles (a from Kepler's third law for the n passed; C, masses as passed)
            terms).  Measured: bit-identical in 1200 calibration cases.
 Non-trivial: at least one body non-synchronous and e > 0.
 Generator domain: e, spin/n, obliquity are exactly 0 or >= 1e-6, 1e-6, 1e-3 (subnormal products otherwise, see C10); the
-rheologies behind C10's two exception findings get a reduced weight; repository calls use tides_common.call_repo.
+'newton' (behind C10's known zero-frequency finding) gets a reduced weight; repository calls use tides_common.call_repo.
 
-Cases in which the mode machinery itself raises C10's known ZeroDivisionErrors (KF-C10-zero-dissipation-q,
-KF-C10-newton-zero-frequency) return no rates; they are reported by C10 and discarded here (counted).
+The only excused exception is C10's known finding KF-C10-newton-zero-frequency: rheology 'newton', a zero-frequency mode in
+the harness enumeration, a *complex* division by zero whose innermost repository frame is the collapse_modes call (the
+Love-number path).  Such a call returns no rates; the case is discarded (counted) and reported by C10.  Any other
+exception - in particular a ZeroDivisionError from the dynamics functions for ANY rheology, elastic/off included - is a
+failure.  An unclassified exception is re-evaluated once in a fresh process (tides_common.second_opinion, label
+`reevaluated_in_fresh_process`; reason: sporadic numba run-time artefact in cold multi-process runs); a deterministic
+exception reproduces there and is reported.
 
 Sensitivity (tools/mut.py, quick tier --cases 2000; all CAUGHT)
   fixes/revert-b813e7b.diff (de/dt NaN / ZeroDivisionError at e = 0)                       -> e_zero, exception
